@@ -13,6 +13,7 @@ import (
 	"cosmossdk.io/log"
 	sdkmath "cosmossdk.io/math"
 	cmtproto "github.com/cometbft/cometbft/proto/tendermint/types"
+	cpctypes "github.com/EscanBE/evermint/v12/x/cpc/types"
 	sdkdb "github.com/cosmos/cosmos-db"
 	sdk "github.com/cosmos/cosmos-sdk/types"
 	authtypes "github.com/cosmos/cosmos-sdk/x/auth/types"
@@ -89,6 +90,7 @@ type World struct {
 	Labels  map[string]common.Address
 	OnBlock []func(w *World, rec *BlockRecord, txs []*TxInfo)
 	C06     *C06Model
+	Q       *C08State
 	opIdx   int
 }
 
@@ -193,6 +195,28 @@ func (w *World) ResolveAddr(s string) (common.Address, bool) {
 		}
 		sort.Slice(metas, func(a, b int) bool { return bytes.Compare(metas[a].Address, metas[b].Address) < 0 })
 		return common.BytesToAddress(metas[i%len(metas)].Address), true
+	case strings.HasPrefix(s, "erc20:"), s == "staking", s == "bech32":
+		want, idx := cpctypes.CpcTypeErc20, 0
+		switch {
+		case s == "staking":
+			want = cpctypes.CpcTypeStaking
+		case s == "bech32":
+			want = cpctypes.CpcTypeBech32
+		default:
+			idx, _ = strconv.Atoi(s[6:])
+		}
+		metas := w.C.Node.App.CPCKeeper.GetAllCustomPrecompiledContractsMeta(w.ctx())
+		sort.Slice(metas, func(a, b int) bool { return bytes.Compare(metas[a].Address, metas[b].Address) < 0 })
+		var of []common.Address
+		for _, m := range metas {
+			if m.CustomPrecompiledType == want {
+				of = append(of, common.BytesToAddress(m.Address))
+			}
+		}
+		if len(of) == 0 {
+			return common.Address{}, false
+		}
+		return of[idx%len(of)], true
 	case strings.HasPrefix(s, "fresh"):
 		i, _ := strconv.Atoi(s[5:])
 		return NewWallet("fresh", i).Addr, true
@@ -504,9 +528,19 @@ func (w *World) DoBlock(op *Op) *BlockRecord {
 	}
 	txs := w.Pending
 	w.Pending, w.PendIdx = nil, nil
-	rec := w.C.Block(txs, BlockOpts{Dt: time.Duration(dt) * time.Second, ProposerAt: op.Prop, Honest: !op.Byz})
-	if rec == nil {
-		return nil
+	// the same ABCI call sequence as Chain.Block, with the query phases of the block life-cycle in between
+	bo := BlockOpts{Dt: time.Duration(dt) * time.Second, ProposerAt: op.Prop, Honest: !op.Byz, SkipCommit: true}
+	w.runPhase("pre")
+	rec, _ := w.C.Propose(txs, bo)
+	rec.Byzantine = op.Byz
+	w.runPhase("mid")
+	rec = w.C.Decide(rec, bo)
+	if !w.C.Halted {
+		w.runPhase("fin")
+		rec = w.C.CommitDecided(rec)
+	}
+	if !w.C.Halted {
+		w.runPhase("post")
 	}
 	w.R.SimSecs += int64(dt)
 	w.R.Count("o:blocks")
